@@ -4,8 +4,8 @@ Line-protocol driver for the engine model (C01, C03, C06, C07, C08).
   node K KIND DFLT EXPR   → "ok"
   session W…              → "Fresh Updated … |[ execs…| X]"
   round K…                → "v1 v2 … |[ execs…| X]"
-Arguments: toggle names (f1 f2 f3 f14 f16 f31 f32) switch the model from as-is to repaired
-behaviour; `desc` / `tape=1,0,2` choose the order of the two hash-set walks (Toggles.desc, .tape);
+Arguments: toggle names (f1 f3 f14 f31 f32) switch the model from as-is to repaired behaviour;
+`nof2` / `nof16` switch it back to the code before the fixes of F2 / F16 (historical); `desc` / `tape=1,0,2` choose the order of the two hash-set walks (Toggles.desc, .tape);
 `msg` appends the model's error message to crash lines;
 `core` runs the core model (QbiceVerif.Model.EngineCore) instead, answering "skip" for cases
 outside its fragment.  `cyc` runs the fresh-evaluation cycle model (QbiceVerif.Model.Cycle, the one
@@ -255,5 +255,5 @@ def main (args : List String) : IO Unit := do
   let tape : List Nat := match args.find? (·.startsWith "tape=") with
     | some a => ((a.drop 5).toString.splitOn ",").filterMap String.toNat?
     | none => []
-  let t : Toggles := { tape := tape, f1 := args.contains "f1", f2 := args.contains "f2", f3 := args.contains "f3", f14 := args.contains "f14", f16 := args.contains "f16", f31 := args.contains "f31", f32 := args.contains "f32", desc := args.contains "desc" }
+  let t : Toggles := { tape := tape, f1 := args.contains "f1", f2 := !args.contains "nof2", f3 := args.contains "f3", f14 := args.contains "f14", f16 := !args.contains "nof16", f31 := args.contains "f31", f32 := args.contains "f32", desc := args.contains "desc" }
   loop (← IO.getStdin) (← IO.getStdout) (args.contains "core") (args.contains "cyc") (args.contains "msg") t {}
